@@ -1,9 +1,11 @@
 (** C07 — SMC-ABC populations satisfy thresholds, prior support and importance weights.
     Model: Sched/Smc.v (round structure over the scheduler and one rejection sampler per round).
     Proofs: Proofs/C07_Smc.v (with C01 and C04). *)
-From Coq Require Import List ZArith Arith Bool PrimFloat.
-From Elfi Require Import Sched.Sched Sched.Reject Sched.Smc Proofs.C01_Reject Proofs.C07_Smc.
+From Coq Require Import List ZArith QArith Qabs Arith Bool PrimFloat.
+From Elfi Require Import Sched.Sched Sched.Reject Sched.Smc Proofs.C01_Reject Proofs.C07_Smc Proofs.C07_Weights.
+From Elfi Require Num.Quantile.
 Import ListNotations.
+Local Close Scope Q_scope.
 
 (** Within a round the proposals handed to batch i do not depend on when it is submitted; hence
     (C04) every worker schedule and every max_parallel_batches give the sequential result. *)
@@ -67,3 +69,97 @@ Example C07_example :
   | None => false
   end = true.
 Proof. vm_compute. reflexivity. Qed.
+
+(** ---- prior support, importance weights, proposal covariance (numeric clauses) ----
+    The mixture density and the weighted variance are the C13 models of GMDistribution.pdf and
+    weighted_var; prior densities and normal component densities are oracle tables.  All
+    comparisons are purely relative, so no statement depends on the units of a parameter. *)
+
+(** A later weight, as the code computes it, is prior density / density of the Gaussian mixture
+    centred on the previous population with that population's weights ... *)
+Theorem C07_weight_is_prior_over_mixture :
+  forall prior dens wprev w, model_weight prior dens wprev = Some w -> (w == spec_weight prior dens wprev)%Q.
+Proof. exact smc_weight_spec. Qed.
+Print Assumptions C07_weight_is_prior_over_mixture.
+
+(** ... and depends on the previous (unnormalised) weights only through their ratios. *)
+Theorem C07_weight_scale_invariant :
+  forall c prior dens wprev w, (0 < c)%Q -> model_weight prior dens wprev = Some w ->
+    exists w', model_weight prior dens (map (Qmult c) wprev) = Some w' /\ (w == w')%Q.
+Proof. exact smc_weight_scale_invariant. Qed.
+Print Assumptions C07_weight_scale_invariant.
+
+(** The stored covariance entry of a coordinate is twice its weighted sample variance
+    (reliability weights), whatever the common factor of the weights. *)
+Theorem C07_cov_is_twice_weighted_variance :
+  forall col ws v, model_cov col ws = Some v -> (v == 2 * Quantile.spec_var (combine col ws))%Q.
+Proof. exact smc_cov_spec. Qed.
+Print Assumptions C07_cov_is_twice_weighted_variance.
+
+Theorem C07_cov_scale_invariant :
+  forall c col ws v v', ~ (c == 0)%Q -> model_cov col ws = Some v -> model_cov col (map (Qmult c) ws) = Some v' -> (v == v')%Q.
+Proof. exact smc_cov_scale_invariant. Qed.
+Print Assumptions C07_cov_scale_invariant.
+
+(** Soundness of the decidable numeric statement evaluated on the implementation's populations:
+    every particle has positive prior density, weights are finite and non-negative, the first
+    population's weights are 1, a later weight is (relative tolerance 1e-8) prior / mixture of the
+    previous population with ITS weights. *)
+Theorem C07_num_ok_sound :
+  forall n ps i p, num_ok n ps = true -> nth_error ps i = Some p ->
+    Forall (fun b => b = true) (q_support p) /\
+    exists ws, finite_weights p = Some ws /\ Forall (Qle 0) ws /\
+      match prev_weights ps i with
+      | None => i = O -> Forall (fun w => (w == 1)%Q) ws
+      | Some wprev =>
+          forall k w prior dens,
+            nth_error ws k = Some w -> nth_error (q_prior p) k = Some (Some prior) -> nth_error (q_dens p) k = Some dens ->
+            (Qabs (spec_weight prior dens wprev - w) <= weight_tol * Qabs (spec_weight prior dens wprev))%Q
+      end.
+Proof. exact num_ok_sound. Qed.
+Print Assumptions C07_num_ok_sound.
+
+(** ... and the covariance is diagonal with entry (k, k) = 2 x weighted sample variance of
+    coordinate k within the conditioning-aware relative tolerance. *)
+Theorem C07_num_ok_cov_sound :
+  forall n ps i p ws k j row e,
+    num_ok n ps = true -> nth_error ps i = Some p -> finite_weights p = Some ws ->
+    Quantile.var_defined (combine (nth 0 (q_cols p) []) ws) = true ->
+    nth_error (q_cov p) k = Some row -> nth_error row j = Some e ->
+    exists c, e = Some c /\
+      if (j =? k)%nat
+      then (Qabs (spec_cov (nth k (q_cols p) []) ws - c) <= cov_tol ws * Qabs (spec_cov (nth k (q_cols p) []) ws))%Q
+      else (c == 0)%Q.
+Proof. exact num_ok_cov_sound. Qed.
+Print Assumptions C07_num_ok_cov_sound.
+
+(** The model's own numbers satisfy the statement for every non-negative tolerance. *)
+Theorem C07_model_weight_ok :
+  forall tol prior dens wprev w, (0 <= tol)%Q -> model_weight prior dens wprev = Some w ->
+    rel_close tol (spec_weight prior dens wprev) w = true.
+Proof. exact model_weight_ok. Qed.
+Print Assumptions C07_model_weight_ok.
+
+Theorem C07_model_cov_ok :
+  forall tol col ws v, (0 <= tol)%Q -> model_cov col ws = Some v -> rel_close tol (spec_cov col ws) v = true.
+Proof. exact model_cov_ok. Qed.
+Print Assumptions C07_model_cov_ok.
+
+(** Non-vacuity: two populations of a parameter living on the scale 1e-6 (second population's
+    weights computed by the model from oracle tables); the same data with an absolute floor of
+    1e-6 on the variance, or with a particle outside the support, is rejected. *)
+Definition ex_pop0 : npop :=
+  {| q_support := [true; true; true]; q_prior := [Some (500000 # 1); Some (500000 # 1); Some (500000 # 1)]%Q;
+     q_cols := [[1 # 1000000; 3 # 2000000; 1 # 2000000]]%Q; q_weights := [Some 1; Some 1; Some 1]%Q;
+     q_cov := [[Some (1 # 2000000000000)]]%Q; q_dens := [] |}.
+Definition ex_pop1 (c : Q) (s : bool) : npop :=
+  {| q_support := [true; s]; q_prior := [Some (500000 # 1); Some (500000 # 1)]%Q;
+     q_cols := [[1 # 1000000; 1 # 2000000]]%Q; q_weights := [Some (5 # 4); Some (5 # 6)]%Q;
+     q_cov := [[Some c]]; q_dens := [[500000 # 1; 400000 # 1; 300000 # 1]; [300000 # 1; 600000 # 1; 900000 # 1]]%Q |}.
+Example C07_numeric_example :
+  num_ok 3 [ex_pop0] = true /\ num_agree [ex_pop0] = true
+  /\ over_pops (fun prev p => npop_ok (length (q_support p)) prev p) None [ex_pop0; ex_pop1 (1 # 4000000000000)%Q true] = true
+  /\ num_agree [ex_pop0; ex_pop1 (1 # 4000000000000)%Q true] = true
+  /\ over_pops (fun prev p => npop_ok (length (q_support p)) prev p) None [ex_pop0; ex_pop1 (2 # 1000000)%Q true] = false
+  /\ over_pops (fun prev p => npop_ok (length (q_support p)) prev p) None [ex_pop0; ex_pop1 (1 # 4000000000000)%Q false] = false.
+Proof. vm_compute. repeat split; reflexivity. Qed.
